@@ -408,7 +408,7 @@ int main(int argc, char ** argv) {
             int tag; char pat[256];
             sscanf(line + 1, "%d %255s", &tag, pat);
             patterns[ntable] = strdup(pat);
-            table[ntable].pattern = patterns[ntable]; table[ntable].callback = handler; table[ntable].tag = tag;
+            table[ntable].pattern = patterns[ntable]; table[ntable].callback = (tag >= 1000) ? NULL : handler; table[ntable].tag = tag;     /* tag >= 1000: an entry without a callback */
             ntable++;
         } else if (line[0] == 'H' && nscripts < MAXT) {
             script_t * s = &scripts[nscripts++];
